@@ -752,4 +752,31 @@ theorem runSubs_calls (sp : Spec) (f : Faults) (co : CreateOutcome) (w0 : World)
   · rw [h5, h4, h3, h2, h1]; simp
   · simp [h1', h2', h3', h4', h5']
 
+/-! ### `truncateMessage` -/
+
+theorem cutBytes_exact (ws : List Nat) : ∀ k, k ≤ textBytes ws →
+    textBytes (cutBytes k ws).1 + (cutBytes k ws).2 = k := by
+  induction ws with
+  | nil => intro k h; simp [textBytes] at h; subst h; simp [cutBytes, textBytes]
+  | cons w ws ih =>
+    intro k h
+    unfold cutBytes
+    split
+    · rename_i hw
+      have h' : k - w ≤ textBytes ws := by simp [textBytes] at h ⊢; omega
+      have := ih (k - w) h'
+      simp [textBytes] at this ⊢
+      omega
+    · simp [textBytes]
+
+theorem cutBytes_prefix (ws : List Nat) : ∀ k, (cutBytes k ws).1 <+: ws := by
+  induction ws with
+  | nil => intro k; simp [cutBytes]
+  | cons w ws ih =>
+    intro k
+    unfold cutBytes
+    split
+    · simpa using ih (k - w)
+    · simp
+
 end Karp.Lifecycle
